@@ -124,7 +124,15 @@ func checkCase(c Case, e *env.Env) (*hx.Violation, outcome) {
 	case "unknown-rep":
 		name = "NoSuchRep/" + strconv.FormatInt(tl.Number(c.N), 10) + ".m4s"
 	case "unknown-asset":
-		asset = "no/such/asset"
+		// unrelated name, a name that merely starts with a known asset path, and one that is a prefix of it
+		switch c.N % 3 {
+		case 0:
+			asset = "no/such/asset"
+		case 1:
+			asset = e.Asset.Path + "_hd"
+		default:
+			asset = e.Asset.Path[:len(e.Asset.Path)-1]
+		}
 	}
 	prevRank := -1
 	var prevNow int64
